@@ -200,7 +200,11 @@ def run(ctx):
             if c is None:
                 a = strip_cast(atom)
                 return pol and isinstance(a, dict) and a.get("n") == "_pool"
-            return c[0] == "!=" and const_val(c[2]) == "null" and strip_cast(c[1]).get("n") == "_pool"
+            op, l, r = c
+            if const_val(l) == "null":
+                l, r = r, l         # nullptr != _pool
+            l = strip_cast(l)
+            return op == "!=" and const_val(r) == "null" and isinstance(l, dict) and l.get("n") == "_pool"
         ne = L.cond_edges(ig, nonnull, live)
         ctx.ob("C17.R4f", L.short(fn), bool(pushes) and bool(ne) and all(p.id not in ig.reach([ig.entry], removed_edges=ne) for p in pushes),
                fn.loc, "the deleter must return the object to its pool only when bound to one")
